@@ -54,9 +54,11 @@ def gen(rng, tier, k):
                 ch["sv_x"] = [[0, 0, 50, False] for _ in ch["svs"]]
     hist = []
     if cls == "unsorted":
-        hist = [[rng.choice(["shuffle", "reverse"]), rng.randrange(10**6)][: 2 if True else 1]]
+        hist = [[rng.choice(["shuffle", "reverse", "append_split"]), rng.randrange(10**6)]]
         if hist[0][0] == "reverse":
             hist = [["reverse"]]
+        if rng.random() < 0.4:
+            hist.append(["append_split", rng.randrange(10**6)])  # rows relabelled 0..n-1 in their rotated order
     return dict(cls=cls, spec=spec, history=hist, override=rng.choice([None, None, 1.0, 200.0, round(rng.uniform(30, 400), 3)]))
 
 
